@@ -13,7 +13,7 @@ BOUND = {
     "quick": "43 zones (23 fixed incl. Cairo, Casablanca, Lord_Howe, Monrovia, Istanbul, London, Dublin, Apia, Gaza, Anchorage, Volgograd + 20 seeded) x default window "
              "1970-2038 and 1 seeded sub-window x every transition of the window (-1 s, 0, +1 s), midpoints, 200 grid points; zoneinfo provider; "
              "round trip to_tz and regeneration for the fixed zones; "
-             "ALL zone keys at 20 coarse instants (RFC reading vs source, away from changes)",
+             "ALL zone keys at 20 coarse instants and at the midpoint of every period between two changes of the source zone (RFC reading vs source)",
     "thorough": "all zone keys x default window and 2 seeded sub-windows, both providers",
 }
 FIXED = ["Europe/Berlin", "America/New_York", "Africa/Cairo", "Africa/Casablanca", "Australia/Lord_Howe", "Africa/Monrovia", "Europe/Istanbul",
@@ -209,7 +209,12 @@ def coarse_all_zones(provider, findings, known_seen, fails):
         def sig(x):
             a = x.replace(tzinfo=timezone.utc).astimezone(src)
             return (a.utcoffset(), a.tzname())
-        for inst in COARSE:
+        # ... and at the midpoint of every period between two changes of the source zone inside the window (periods of >= 8 days)
+        trans = transitions_in(src, datetime(first.year, first.month, first.day), datetime(last.year, last.month, last.day))
+        edges = [datetime(first.year, first.month, first.day) + timedelta(days=2)] + list(trans) + [datetime(last.year, last.month, last.day) - timedelta(days=2)]
+        mids = [a + (b2 - a) / 2 for a, b2 in zip(edges, edges[1:]) if b2 - a >= timedelta(days=8)]
+        mids = [m.replace(microsecond=0) for m in mids]
+        for inst in COARSE + mids:
             n += 1
             want = sig(inst)
             if sig(inst - timedelta(days=3)) != want or sig(inst + timedelta(days=3)) != want:
@@ -220,8 +225,7 @@ def coarse_all_zones(provider, findings, known_seen, fails):
             m = (f"{key}: at {inst}Z the generated VTIMEZONE (RFC onset rule) gives {None if got is None else (got[2], got[3])}, "
                  f"the source zone {want}")
             # classification needs the changes around the instant only
-            near = transitions_in(src, inst - timedelta(days=140), inst + timedelta(days=140))
-            cls = classify(src, near, inst, want)
+            cls = classify(src, trans, inst, want)
             f = {"witness": {"zone": key, "coarse": True, "instant": inst.isoformat(), "provider": provider}, "detail": f"[{provider}] " + (f"<{cls}> " if cls else "") + m}
             fid = match(f, findings, cls)
             if fid:
